@@ -404,6 +404,26 @@ structure Implements (c : BlockCipher) (k : Spec.Mode.Cipher) : Prop where
   D_E : ∀ b, IsBlock c.len b → k.D (k.E b) = b
   E_D : ∀ b, IsBlock c.len b → k.E (k.D b) = b
 
+/-- the total block functions a model cipher computes (the empty string where it raises) -/
+def specOf (c : BlockCipher) : Spec.Mode.Cipher :=
+  ⟨c.len, fun b => match c.enc b with | .ok y => y | .error _ => [],
+          fun b => match c.dec b with | .ok y => y | .error _ => []⟩
+
+/-- the permutation hypotheses stated on the model cipher alone (what C03 proves for AES, DES, TDEA, Serpent, Threefish):
+    on byte blocks enc and dec succeed, preserve the block format and invert each other -/
+theorem implements_of_model (c : BlockCipher) (hpos : 0 < c.len)
+    (henc : ∀ b, IsBlock c.len b → ∃ y, c.enc b = .ok y ∧ IsBlock c.len y ∧ c.dec y = .ok b)
+    (hdec : ∀ y, IsBlock c.len y → ∃ b, c.dec y = .ok b ∧ IsBlock c.len b ∧ c.enc b = .ok y) :
+    Implements c (specOf c) where
+  len_eq := rfl
+  len_pos := hpos
+  enc_ok := fun b hb => by obtain ⟨y, h1, _, _⟩ := henc b hb; simp [specOf, h1]
+  dec_ok := fun b hb => by obtain ⟨y, h1, _, _⟩ := hdec b hb; simp [specOf, h1]
+  E_block := fun b hb => by obtain ⟨y, h1, h2, _⟩ := henc b hb; simpa [specOf, h1] using h2
+  D_block := fun b hb => by obtain ⟨y, h1, h2, _⟩ := hdec b hb; simpa [specOf, h1] using h2
+  D_E := fun b hb => by obtain ⟨y, h1, _, h3⟩ := henc b hb; simp [specOf, h1, h3]
+  E_D := fun b hb => by obtain ⟨y, h1, _, h3⟩ := hdec b hb; simp [specOf, h1, h3]
+
 theorem mkPad_ok (c : BlockCipher) (s : Scheme) (h : 0 < c.len) : mkPad c s = .ok ⟨s, 8 * c.len⟩ := by
   unfold mkPad Padder.mk?
   rw [if_neg (by omega), if_neg (by omega)]
